@@ -170,7 +170,9 @@ theorem regWait_inv {fuel : Nat} {W : List Nat} {s : State} {t : Nat} (top' : Op
     Ok (regWait (stop fuel) s o n t)
       (Inv [] W top' (regWait (stop fuel) s o n t) ∧ G0 s (regWait (stop fuel) s o n t) ∧
         Tbl.hasOwner (regWait (stop fuel) s o n t).waitFor t = true ∧
-        ∀ l, (regWait (stop fuel) s o n t).alive l = s.alive l) := by
+        (∀ l, (regWait (stop fuel) s o n t).alive l = s.alive l) ∧
+        (∀ u, u ≠ t → thFind (regWait (stop fuel) s o n t).threads u = thFind s.threads u) ∧
+        (regWait (stop fuel) s o n t).cur = s.cur) := by
   unfold regWait
   simp only
   by_cases hown : Tbl.hasOwner s.waitFor t = true
@@ -191,7 +193,7 @@ theorem regWait_inv {fuel : Nat} {W : List Nat} {s : State} {t : Nat} (top' : Op
       · exact e
       · rw [hown] at e; cases e
     apply Ok.pure
-    refine ⟨?_, G0.of_eq rfl rfl rfl, hasOwner_push_self _ h.n.wfW (t, n) o, fun l => rfl⟩
+    refine ⟨?_, G0.of_eq rfl rfl rfl, hasOwner_push_self _ h.n.wfW (t, n) o, fun l => rfl, (by intros; first | trivial | rfl), (by first | trivial | rfl)⟩
     exact (h.consW t).register o n th hth hw hd ho hon (Or.inr (Or.inl ht'.symm)) (Or.inr (Or.inl ht'))
   · have hown' : Tbl.hasOwner s.waitFor t = false := by simpa using hown
     simp only [hown', Bool.not_false, if_true]
@@ -236,7 +238,7 @@ theorem regWait_inv {fuel : Nat} {W : List Nat} {s : State} {t : Nat} (top' : Op
         (by rcases htop with e1 | ⟨e1, _⟩
             · exact Or.inr (Or.inl e1)
             · exact Or.inr (Or.inr ⟨e1, hown'⟩))
-      refine ⟨hreg, ?_, hasOwner_push_self _ h.n.wfW (t, n) o, ?_⟩
+      refine ⟨hreg, ?_, hasOwner_push_self _ h.n.wfW (t, n) o, ?_, ?_, rfl⟩
       · have g := G0.setTh s t (suspendAfter fun th => { th with ts := .waiting })
           (fun x => by rw [suspendAfter_hasVM]) (fun x => by rw [suspendAfter_dead])
           (fun th _ hi => by
@@ -246,6 +248,9 @@ theorem regWait_inv {fuel : Nat} {W : List Nat} {s : State} {t : Nat} (top' : Op
         exact g.congr rfl rfl rfl rfl rfl rfl
       · intro l
         exact hal l
+      · intro u hu
+        show thFind (s.threads.map (thUpd t _)) u = _
+        rw [thFind_map_upd]; simp [hu]
     · rw [e]
       exact Or.inl rfl
 
